@@ -110,6 +110,7 @@ class Printer:
         self.lines = [""]
         self.rng = rng
         self.fancy = fancy and rng is not None
+        self.multiline = False      # fancy layouts may also break lines in the middle of a construct
         self.indent = 0
         self.glue = False
 
@@ -128,6 +129,11 @@ class Printer:
         if cur == "":
             pad = ("\t" if self.fancy and self.rng.random() < 0.1 else " " * (2 * self.indent + (self.rng.randint(0, 3) if self.fancy else 0)))
             cur = pad
+        elif not (glue_before or self.glue) and self.fancy and self.multiline and self.rng.random() < 0.06:
+            # a line break in the middle of a construct (legal: white space is skipped): a construct then spans several lines
+            # and its position is that of its FIRST token, not of the line where it ends or fails
+            self.lines.append("")
+            cur = " " * (2 * self.indent + self.rng.randint(0, 6))
         elif not (glue_before or self.glue):
             cur += " " * (self.rng.randint(1, 3) if self.fancy and self.rng.random() < 0.2 else 1)
         self.glue = False
@@ -736,10 +742,11 @@ def coq_hobj(d, dump=None):
 
 
 # ---------------------------------------------------------------- one case
-def make_case(cid, body, inject, name="r1", desc="d one", sal=3, rng=None, fancy=False, prelude=None, fixed_pos=True):
+def make_case(cid, body, inject, name="r1", desc="d one", sal=3, rng=None, fancy=False, prelude=None, fixed_pos=True, multiline=False):
     """Prints the rule (optionally after other rules: prelude = list of (name, desc, sal, body)),
     returns the case dict (text for the harness + AST kept for the Coq emission)."""
     pr = Printer(rng, fancy)
+    pr.multiline = multiline
     for (n2, d2, s2, b2) in (prelude or []):
         pr.p_rule(n2, d2, s2, b2)
     pr.p_rule(name, desc, sal, body)
